@@ -471,7 +471,23 @@ pub fn parse_amount_with_currency(input: &str, currency: &str) -> Result<f64, Pa
 /// assert_eq!(format_swift_amount(1000.50, 2), "1000,50");
 /// ```
 pub fn format_swift_amount(amount: f64, decimals: usize) -> String {
-    let formatted = format!("{:.width$}", amount, width = decimals);
+    // Start from the shortest text that reads back as the same value and pad it with zeros:
+    // a fixed {:.N} shows binary noise for large amounts (1234567890123.1 -> ...123,1001).
+    let shortest = amount.to_string();
+    let written = shortest
+        .find('.')
+        .map(|pos| shortest.len() - pos - 1)
+        .unwrap_or(0);
+    let formatted = if amount.is_finite() && written <= decimals {
+        let mut padded = shortest;
+        if written == 0 && decimals > 0 {
+            padded.push('.');
+        }
+        padded.extend(std::iter::repeat_n('0', decimals - written));
+        padded
+    } else {
+        format!("{:.width$}", amount, width = decimals)
+    };
     formatted.replace('.', ",")
 }
 
